@@ -210,7 +210,11 @@ def derived_rule(ctx, p):
     # mask centre = bounding-box centre of the mask's own pixel-centre grid (a point)
     mc = p.func("autoarray.mask.mask_2d:Mask2D.mask_centre")
     rets = wire.returns_of(mc)
-    ctx.ob(rule, mc.key + ":centre", len(rets) == 1 and norm_text(rets[0].value) == "grid_2d_util.grid_2d_centre_from(grid_2d_slim=grid)", where=mc, node=mc.node, construct=norm_text(rets[0].value) if rets else "", message="the mask centre must be the centre of the mask's own coordinate grid")
+    okc = False
+    if len(rets) == 1 and isinstance(rets[0].value, ast.Call) and norm_text(rets[0].value.func).endswith("grid_2d_centre_from"):
+        inner = wire.see_name(mc, wire.kw(rets[0].value).get("grid_2d_slim")) if wire.kw(rets[0].value).get("grid_2d_slim") is not None else None
+        okc = isinstance(inner, ast.Call) and norm_text(inner.func).endswith("grid_2d_slim_via_mask_from")   # (its arguments are decided by the obligation above)
+    ctx.ob(rule, mc.key + ":centre", okc, where=mc, node=mc.node, construct=norm_text(rets[0].value) if rets else "", message="the mask centre must be the centre of the mask's own coordinate grid")
 
 
 _EXT_FN = {f"call:{m}.{f}" for m in ("np", "numpy") for f in ("min", "max", "amin", "amax", "nanmin", "nanmax")}
